@@ -6,4 +6,5 @@ void registerAll()
     reg_sock();
     reg_srv();
     reg_copier();
+    reg_auth();
 }
